@@ -268,3 +268,30 @@ func VerifC07_CmdRunExtractCancel_E() {
 		vAssert(os.IsNotExist(rerr), "failed/interrupted extract left something at a destination path that did not exist")
 	}
 }
+
+// VerifC01_CmdSeedDir_E: `desync extract --seed-dir <dir> <index> <out>` where the seed directory
+// is the one that holds the index being extracted (and an older version of the target next to
+// it), the directory and the index spelled differently (absolute / relative): the index being
+// extracted is not its own seed - with a complete store the extract succeeds and is correct.
+func VerifC01_CmdSeedDir_E() {
+	blob, opt, _, dir := verifCmdExtractSetup()
+	// the index being extracted lives in <dir> as blob.caibx; the "prior target" next to it is stale
+	os.WriteFile(dir+"/blob", []byte("zz"), 0644)
+	spell := func(p string, rel bool) string {
+		if rel {
+			return p[1:] // relative to the working directory "/"
+		}
+		return p
+	}
+	opt.seedDirs = []string{spell(dir, vChoose("seed-dir-relative", 2) == 1)}
+	index := spell(dir+"/blob.caibx", vChoose("index-relative", 2) == 1)
+	opt.inPlace = vChoose("in-place", 2) == 1
+	vSchedFixed(true)
+	err := runExtract(context.Background(), opt, []string{index, dir + "/blob"})
+	vCover("returned")
+	vAssert(err == nil, "extract failed although the store holds every chunk (the index being extracted used as its own seed?)")
+	b, _ := os.ReadFile(dir + "/blob")
+	if err == nil {
+		vAssert(string(b) == string(blob), "extract reported success but the output is not the blob")
+	}
+}
